@@ -6,3 +6,4 @@ import Xrfmv.Props.C15
 #print axioms Xrfmv.Props.C15.categorical_matrix_eq_dense
 #print axioms Xrfmv.Props.C15.agop_block_restriction
 #print axioms Xrfmv.Props.C15.agop_blocks_disjoint
+#print axioms Xrfmv.Props.C15.row_blocks_are_tilings
